@@ -190,6 +190,12 @@ def parseUint64Lossy (s : Bytes) : Nat :=
   let n := digitsVal s
   if n > 2 ^ 64 - 1 then 2 ^ 64 - 1 else n
 
+/-- `strconv.ParseUint(s, 10, 63)` with the error ignored (repair F14): saturates at 2^63-1. -/
+def parseUint63Lossy (s : Bytes) : Nat :=
+  if s.isEmpty || !s.all isDigitB then 0 else
+  let n := digitsVal s
+  if n > 2 ^ 63 - 1 then 2 ^ 63 - 1 else n
+
 /-- Go `int(uint64)` conversion on a 64-bit platform. -/
 def wrapInt64 (n : Nat) : Int := if n < 2 ^ 63 then n else (n : Int) - 2 ^ 64
 
